@@ -164,10 +164,21 @@ package function
 // processInputSeries: one output vector per input vector, stamped with the same step - also for a
 // step without any bucket sample; the buckets of every step start empty (no carry-over between
 // steps); output ids index the output series; the quantile of step k is the k-th scalar point.
+// bucketQuantile / coalesceBuckets / ensureMonotonic (C13): index safety for every bucket list with at
+// least one bucket - in particular when coalescing equal upper bounds leaves a single bucket (NaN).
+//@ func coalesceBuckets
+//@   requires len(buckets) >= 1
+//@   assigns elems(function.le)@buckets
+//@   ensures[C13] at-least-one-bucket-left: 1 <= len(result) && len(result) <= len(buckets)
+//@   loop 0 invariant 0 <= i && i <= rangeindex + 1 && rangeindex + 1 <= len(buckets) - 1 && len(buckets) == old(len(buckets))
+//@ func ensureMonotonic
+//@   requires len(buckets) >= 1
+//@   assigns elems(function.le)@buckets
+//@   loop 0 invariant 1 <= i && len(buckets) == old(len(buckets))
 //@ func bucketQuantile
-//@   trusted float index arithmetic and in-place sorting of the buckets (transcription of promql/quantile.go); assumed not to panic for at least two buckets
-//@   requires len(buckets) >= 2
-//@   assigns elems(function.le)
+//@   requires len(buckets) >= 1
+//@   assigns elems(function.le)@buckets
+//@   ensures[C06] nan-quantile-is-nan: isnan(q) ==> isnan(result)
 //@ func (*histogramOperator).resetBuckets
 //@   requires o != nil
 //@   assigns elems(function.buckets)@o.seriesBuckets
@@ -178,7 +189,7 @@ package function
 //@     (forall j in 0..len(o.outputIndex) :: o.outputIndex[j] != nil ==> 0 <= o.outputIndex[j].outputID && o.outputIndex[j].outputID < len(o.seriesBuckets))
 //@ func (*histogramOperator).processInputSeries
 //@   requires hopInv(o) && allocated(vectors)
-//@   requires forall k in 0..len(vectors) :: len(vectors[k].SampleIDs) == len(vectors[k].Samples) && preexisting(vectors[k].SampleIDs) && (forall j in 0..len(vectors[k].SampleIDs) :: vectors[k].SampleIDs[j] < len(o.outputIndex))
+//@   requires forall k in 0..len(vectors) :: len(vectors[k].SampleIDs) == len(vectors[k].Samples) && allocated(vectors[k].SampleIDs) && (forall j in 0..len(vectors[k].SampleIDs) :: vectors[k].SampleIDs[j] < len(o.outputIndex))
 //@   ensures[C18] never-fails: result1 == nil
 //@   ensures[C06,C07,C18] one-output-vector-per-input-vector: len(result0) == len(vectors) && (forall k in 0..len(result0) :: result0[k].T == vectors[k].T)
 //@   ensures[C18] step-vectors-own-their-buffers: ownBuffers(result0, len(result0)) && sepBuffers(result0, len(result0))
@@ -219,4 +230,27 @@ package function
 //@   at line "hashBuf = lbls.Bytes(hashBuf)" set hashedLen = len(lbls)
 //@   at line "o.series = append(o.series, lbls)" assert[C06,C19] output-series-are-keyed-by-their-reported-label-set: ref(lbls) == hashedRef && len(lbls) == hashedLen
 //@   at function.dropLabel assert[C17] storage-labels-are-copied-before-le-is-dropped: isnil($l) || $l.lowned
-//@   loop 0 invariant o != nil && len(o.outputIndex) == len(series) && hasher != nil
+//@   assigns function.histogramOperator.series, function.histogramOperator.outputIndex, function.histogramOperator.seriesBuckets, model.VectorPool.stepSize
+//@   ensures[C15] series-error-surfaces: callres("model.VectorOperator.Series", 1, 1) != nil ==> result != nil
+//@   ensures[C13,C18] output-index-covers-the-input-series: result == nil ==> len(o.outputIndex) == o.vectorOp.nSeries && len(o.seriesBuckets) == len(o.series) &&
+//@       (forall j in 0..len(o.outputIndex) :: o.outputIndex[j] != nil ==> 0 <= o.outputIndex[j].outputID && o.outputIndex[j].outputID < len(o.seriesBuckets))
+//@   loop 0 invariant o != nil && o.pool != nil && len(o.outputIndex) == len(series) && len(series) == o.vectorOp.nSeries && hasher != nil && fresh(o.outputIndex) && fresh(o.series)
+//@   loop 0 invariant ids-known: forall k in ALL..ALL :: has(seriesHashes, k) ==> 0 <= seriesHashes[k] && seriesHashes[k] < len(o.series)
+//@   loop 0 invariant indexed-so-far: forall j in 0..len(o.outputIndex) :: o.outputIndex[j] != nil ==> 0 <= o.outputIndex[j].outputID && o.outputIndex[j].outputID < len(o.series)
+
+// histogramOperator.Next (C06, C15, C18): the quantile stream and the bucket stream are pulled once
+// each per batch; errors of either surface; the batch is the result of processInputSeries over the
+// bucket batch.
+//@ func (*histogramOperator).Next
+//@   requires ctx != nil && o != nil && o.pool != nil && o.scalarOp != nil && o.vectorOp != nil
+//@   requires series-loaded-once: o.once != 0 ==> len(o.outputIndex) == o.vectorOp.nSeries && hopInv(o)
+//@   panics may
+//@   ensures[C18] error-means-no-batch: result1 != nil ==> isnil(result0)
+//@   ensures[C15] quantile-stream-error-surfaces: ncalls("model.VectorOperator.Next") >= 1 && callres("model.VectorOperator.Next", 1, 1) != nil ==> result1 != nil
+//@   ensures[C15] bucket-stream-error-surfaces: ncalls("model.VectorOperator.Next") >= 2 && callres("model.VectorOperator.Next", 2, 1) != nil ==> result1 != nil
+//@   ensures[C06,C07,C18] one-output-vector-per-bucket-vector: result1 == nil && !isnil(result0) ==> ncalls("model.VectorOperator.Next") == 2 &&
+//@       len(result0) == len(callres("model.VectorOperator.Next", 2, 0))
+//@   at function.(*histogramOperator).processInputSeries assert[C06] buckets-of-the-batch: sameslice($vectors, vectors)
+//@   loop 0 invariant o != nil && o.pool != nil && o.scalarOp != nil && o.vectorOp != nil && hopInv(o) && len(o.outputIndex) == o.vectorOp.nSeries &&
+//@       sameslice(vectors, callres("model.VectorOperator.Next", 2, 0)) && allocated(vectors) &&
+//@       (forall k in 0..len(vectors) :: len(vectors[k].SampleIDs) == len(vectors[k].Samples) && allocated(vectors[k].SampleIDs) && (forall j in 0..len(vectors[k].SampleIDs) :: vectors[k].SampleIDs[j] < o.vectorOp.nSeries))
